@@ -5,7 +5,7 @@ CONSTANTS
   MaxPool = 0
   MaxSize = 0
   Raise = FALSE
-  Devs = {"UnnamedNoAlign", "UnionUnnamedIgnored", "PackedNoFinalAlign"}
+  Devs = {}
   Widths = {}
   Emit = TRUE
   CharSigned = TRUE
